@@ -6,6 +6,7 @@ package c12
 
 import (
 	"bytes"
+	"context"
 	"crypto/ed25519"
 	"crypto/x509"
 	"encoding/json"
@@ -137,6 +138,15 @@ func scenarios() []scenario {
 			must(err)
 			_, err = rotation.RotateRootCertificates(harness.Ctx, st, w.opt(), nodeenrollment.WithReinitializeRoots(true))
 			must(err)
+			return nil
+		}},
+		{"flow:roots-rotate-with-state-option", func(w *world, st, nd *harness.MemStore) []proto.Message {
+			// the same option list carries the storage wrapper and application state
+			_, err := rotation.RotateRootCertificates(harness.Ctx, st, w.opt(), nodeenrollment.WithState(state))
+			must(err)
+			r, err := types.LoadRootCertificates(harness.Ctx, st.Clone(), w.opt())
+			must(err)
+			must(r.Store(harness.Ctx, st, w.opt(), nodeenrollment.WithState(state)))
 			return nil
 		}},
 		{"flow:authorize+fetch+handle", func(w *world, st, nd *harness.MemStore) []proto.Message {
@@ -303,6 +313,78 @@ func storeDirect(m proto.Message, st *harness.MemStore, opt ...nodeenrollment.Op
 		return x.Store(harness.Ctx, st, opt...)
 	}
 	panic("type")
+}
+
+// faultyWrapper fails its n-th operation (KeyId, Encrypt and Decrypt are counted).
+type faultyWrapper struct {
+	wrapping.Wrapper
+	failAt int
+	calls  int
+}
+
+func (f *faultyWrapper) tick() error {
+	f.calls++
+	if f.calls == f.failAt {
+		return fmt.Errorf("injected wrapper failure at operation %d", f.calls)
+	}
+	return nil
+}
+
+func (f *faultyWrapper) KeyId(ctx context.Context) (string, error) {
+	if err := f.tick(); err != nil {
+		return "", err
+	}
+	return f.Wrapper.KeyId(ctx)
+}
+
+func (f *faultyWrapper) Encrypt(ctx context.Context, pt []byte, opt ...wrapping.Option) (*wrapping.BlobInfo, error) {
+	if err := f.tick(); err != nil {
+		return nil, err
+	}
+	return f.Wrapper.Encrypt(ctx, pt, opt...)
+}
+
+func (f *faultyWrapper) Decrypt(ctx context.Context, ct *wrapping.BlobInfo, opt ...wrapping.Option) ([]byte, error) {
+	if err := f.tick(); err != nil {
+		return nil, err
+	}
+	return f.Wrapper.Decrypt(ctx, ct, opt...)
+}
+
+// runScenarioWithWrapperFaults repeats a flow with the storage wrapper failing
+// at each of its operations in turn. The flow may fail; whatever it handed to
+// storage before or after must still satisfy the property.
+func (w *world) runScenarioWithWrapperFaults(sc scenario, r *engine.Report) []finding {
+	var out []finding
+	good := w.s
+	defer func() { w.s = good }()
+	// count the wrapper operations of the fault-free flow
+	counter := &faultyWrapper{Wrapper: good, failAt: -1}
+	w.s = counter
+	vclock.Freeze(harness.T0.Add(123456789))
+	func() {
+		defer func() { recover() }()
+		sc.Run(w, harness.NewMemStore(), harness.NewMemStore())
+	}()
+	n := counter.calls
+	for i := 1; i <= n; i++ {
+		fw := &faultyWrapper{Wrapper: good, failAt: i}
+		w.s = fw
+		st, nd := harness.NewMemStore(), harness.NewMemStore()
+		st.Record, nd.Record = true, true
+		func() {
+			defer func() { recover() }() // the scenarios panic on errors: a failing flow is fine here
+			sc.Run(w, st, nd)
+		}()
+		w.s = good
+		for _, f := range w.audit(fmt.Sprintf("%s with wrapper operation %d of %d failing", sc.Name, i, n), []*harness.MemStore{st, nd}, nil, r) {
+			f.sig = "wrapper-fault:" + f.sig
+			out = append(out, f)
+		}
+		r.Branch("wrapper-fault-audited")
+		r.Eval(1)
+	}
+	return out
 }
 
 type finding struct{ sig, msg string }
@@ -493,7 +575,7 @@ func (w *world) runTransplants(r *engine.Report) []finding {
 }
 
 func run(c *engine.Ctx, r *engine.Report) {
-	r.Need("audited:roots", "audited:nodeinfo", "audited:nodecreds", "audited:token", "round-trip", "transplant-rejected")
+	r.Need("audited:roots", "audited:nodeinfo", "audited:nodecreds", "audited:token", "round-trip", "transplant-rejected", "wrapper-fault-audited")
 	w := newWorld(c.Seed)
 	report := func(k kase, fs []finding) {
 		seen := map[string]bool{}
@@ -514,6 +596,12 @@ func run(c *engine.Ctx, r *engine.Report) {
 		if i < 2 {
 			r.Sample(k)
 		}
+	}
+	for _, sc := range scenarios() {
+		if strings.Contains(sc.Name, "previous-key") {
+			continue // those store hand-built records; the known finding is reported above
+		}
+		report(kase{"wrapper-fault", sc.Name, c.Seed}, w.runScenarioWithWrapperFaults(sc, r))
 	}
 	for i, d := range w.directRecords() {
 		r.Eval(1)
@@ -543,6 +631,12 @@ func replay(c *engine.Ctx, raw json.RawMessage) (string, bool) {
 				fs = w.runScenario(sc, r)
 			}
 		}
+	case "wrapper-fault":
+		for _, sc := range scenarios() {
+			if sc.Name == k.Name {
+				fs = w.runScenarioWithWrapperFaults(sc, r)
+			}
+		}
 	case "direct":
 		for _, d := range w.directRecords() {
 			if d.Name == k.Name {
@@ -566,7 +660,7 @@ func init() {
 	engine.Register(&engine.CheckDef{
 		ID:    "C12",
 		Level: "exploration",
-		Rule: "7 writing flows through the real API with a storage wrapper (root rotation + reinit, authorize+fetch+handle, token, wrapper registration, node rotation, previous key on node credentials / node information), every hand-built record over the 16 combinations of optional fields {nonce, previous key, state, bundles} for the node types and {state} for roots and tokens, and every transplant of a sealed field between two records of the same type; the harness store records the exact bytes handed to Storage.Store; secrets are learnt by unwrapping those bytes with the same wrapper; " +
+		Rule: "8 writing flows through the real API with a storage wrapper (root rotation + reinit, root rotation and store with an application-state option in the same option list, authorize+fetch+handle, token, wrapper registration, node rotation, previous key on node credentials / node information), every hand-built record over the 16 combinations of optional fields {nonce, previous key, state, bundles} for the node types and {state} for roots and tokens, every transplant of a sealed field between two records of the same type, and every flow again with the wrapper failing at each of its operations in turn (whatever reached storage must still satisfy the property); the harness store records the exact bytes handed to Storage.Store; secrets are learnt by unwrapping those bytes with the same wrapper; " +
 			"distinct_nontrivial counts scenarios / records / transplant groups (distinct by construction) that were audited without a finding",
 		Assumptions: []string{"a secret is searched as a byte substring (PKCS8 form, raw Ed25519 seed, raw X25519 scalar, nonce, marshaled timestamp with a nanosecond part); secrets shorter than 8 bytes are not searched"},
 		Run:         run,
